@@ -461,7 +461,9 @@ def oracle_C06(t):
                 out.append(F(i, "an anomalous request (%s) was given the session" % ("address" if not ipok else "user agent")))
             if post.L(k) is not None or k in post.store:
                 out.append(F(i, "the record presented by an anomalous request was not destroyed"))
-            if r.get("ref"):
+            if r.get("ref") and "login" not in t.script_ops(i):
+                # (a session created in this request may log a user in exclusively
+                # and thereby legitimately detach that user from the live session)
                 tgt = resolve(pre, k)
                 if tgt and tgt[0] != k:
                     a, b = pre.L(tgt[0]), post.L(tgt[0])
